@@ -3,15 +3,18 @@ from ..gcheck import GFamily, run_batches
 from ..families import axilic as fam
 
 INVS = ["RoutedByAddress", "WFollowsItsAW", "DataExactlyOnce", "ResponseToIssuerInOrder", "FrozenWhileOutstanding",
-        "ValidHold"]
-PROPS = ["Served"]
+        "ValidHold", "WValidHold"]
+PROPS = ["Served", "ServedIfGaps"]
 CM = {k: k for k in INVS}
 CM["Served"] = "BoundedService"
+CM["ServedIfGaps"] = "BoundedService"
 FAMILY = GFamily("axilic/AxiLiteIcGraph", "axilic/AxiLiteIcTrace", "harness.families.axilic:make", hint=fam.Hint(),
-                 clause_map=CM,
+                 fmt="hash", clause_map=CM,
                  describe=lambda s: "axi_lite.%s(%dx%d, %s, k=%s%s)" % (
                      s["kind"], s["n"], s["m"], "write" if s["dir"] == "w" else "read", s.get("k", 1),
-                     ", timeout=%s" % s["timeout"] if s.get("timeout") else ""))
+                     (", timeout=%s" % s["timeout"] if s.get("timeout") else "") +
+                     (", data before address" if s.get("earlyw") else "") +
+                     (", other slave while outstanding" if s.get("xslave") else "")))
 
 
 def run(prop, report, tier, seed):
@@ -20,6 +23,6 @@ def run(prop, report, tier, seed):
                   "follow its address; up to k outstanding requests per master and per slave; write and read "
                   "directions are explored separately (the interconnect keeps separate state per direction)")
     stats = run_batches(FAMILY, report, [cfgs[i:i + 4] for i in range(0, len(cfgs), 4)], INVS, PROPS,
-                        spec_budget=400000, total_budget=1500000)
+                        spec_budget=0, total_budget=0)
     report.add(duts_explored=len(stats), clauses=INVS + PROPS, per_dut=stats)
     report.cov["exhaustive"] = True
